@@ -1,12 +1,176 @@
 /-
 Driver commands of property C03 (core Lean only).  Command names start with "c03.".
+
+  c03.run <pg><cr> <base>,<size>,<hex> … | op …
+      pg, cr ∈ {0,1}: peekGuard / clearOnRebase (code variant, see Hts.Model.CachedReader.Cfg)
+      members of the file, then the history:
+        s<file>,<blk>   Seek            r<n>  Read(n bytes)      b  ReadByte       B0 / B1  Blocked := false / true
+        c-              SetCache(nil)   c<kind>,<cap>[,<victim key>…]   SetCache(new cache); kind L F R SL SF SR;
+                        the victim keys are the bases of the blocks the implementation's cache evicted, in order
+        S               StatsRecorder.Stats() of the attached cache
+      answer: the outcome of NewReader, then per op   <hex bytes>/<ok|eof|err>/<bf>,<bb>,<ef>,<eb>/<cache calls>
+      where the cache calls made by the reader during the op are  G<base>=<0|1>  P<base>=<r|k|e<evicted base>> joined by ';'
+      a fault ends the answer with  !hang  !panic  !hint
 -/
 import Hts.Drv.Util
+import Hts.Model.CachedReader
 namespace Hts.Drv.C03
-open Hts.Drv
+open Hts.Drv Hts.Model.Cache Hts.Spec.CacheContract Hts.Model.CachedReader
+
+/-- any provided cache, with the recorder's counters and a log of the calls made -/
+inductive AnyCache
+  | l (kind : Kind) (c : LCache) (st : Stats) (log : List String) (rec : Bool)
+  | r (c : RCache) (st : Stats) (log : List String) (rec : Bool)
+
+def AnyCache.log : AnyCache → List String
+  | .l _ _ _ g _ => g
+  | .r _ _ g _ => g
+
+def AnyCache.stats : AnyCache → Option Stats
+  | .l _ _ s _ rec => if rec then some s else none
+  | .r _ s _ rec => if rec then some s else none
+
+def AnyCache.items : AnyCache → List Entry
+  | .l _ c _ _ _ => c.items
+  | .r c _ _ _ => c.items
+
+def keyOf (items : List Entry) (id : Nat) : String :=
+  match items.find? (fun e => e.id == id) with
+  | some e => toString e.key
+  | none => "?"
+
+def putLog (h : Heap) (items : List Entry) (id : Nat) (r : PutRes) : String :=
+  let b := (h id).base
+  match r with
+  | .refused => s!"P{b}=r"
+  | .kept none => s!"P{b}=k"
+  | .kept (some v) => s!"P{b}=e{keyOf items v}"
+  | .panic => s!"P{b}=P"
+
+def anyOps : CacheOps AnyCache where
+  put h a id hint :=
+    match a with
+    | .l kd c st g rec =>
+      let (c', r) := c.put h id
+      some (.l kd c' (st.onPut r) (putLog h c.items id r :: g) rec, r)
+    | .r c st g rec =>
+      (c.put h id hint).map fun (c', r) => (.r c' (st.onPut r) (putLog h c.items id r :: g) rec, r)
+  get h a k :=
+    match a with
+    | .l kd c st g rec =>
+      let (c', r) := c.get kd h k
+      (.l kd c' (st.onGet r) (s!"G{k}={if r.isSome then 1 else 0}" :: g) rec, r)
+    | .r c st g rec =>
+      let (c', r) := c.get k
+      (.r c' (st.onGet r) (s!"G{k}={if r.isSome then 1 else 0}" :: g) rec, r)
+  peek h a k :=
+    match a with
+    | .l _ c _ _ _ => c.peek h k
+    | .r c _ _ _ => c.peek h k
+  held a := a.items
+
+def mkCache (kind : String) (cap : Int) : Option AnyCache :=
+  match kind with
+  | "L" => some (.l .lru (LCache.new cap) {} [] false)
+  | "SL" => some (.l .lru (LCache.new cap) {} [] true)
+  | "F" => some (.l .fifo (LCache.new cap) {} [] false)
+  | "SF" => some (.l .fifo (LCache.new cap) {} [] true)
+  | "R" => some (.r (RCache.new cap) {} [] false)
+  | "SR" => some (.r (RCache.new cap) {} [] true)
+  | _ => none
+
+def parseMember (s : String) : Option Member :=
+  match s.splitOn "," with
+  | [b, z, h] => do
+    let b ← parseInt b
+    let z ← parseInt z
+    let d ← parseHex h
+    some ⟨b, z, d⟩
+  | _ => none
+
+def parseOp (tok : String) : Option (Option (Op AnyCache)) :=
+  let op := (tok.take 1).toString
+  let rest := (tok.drop 1).toString
+  match op with
+  | "s" =>
+    match rest.splitOn "," with
+    | [f, b] => do
+      let f ← parseInt f
+      let b ← parseNat b
+      some (some (.seek f b))
+    | _ => none
+  | "r" => (parseNat rest).map (fun n => some (.read n))
+  | "b" => some (some .readByte)
+  | "B" => some (some (.setBlocked (rest == "1")))
+  | "S" => some none
+  | "c" =>
+    if rest == "-" then some (some (.setCache none []))
+    else
+      match rest.splitOn "," with
+      | kind :: cap :: hs => do
+        let cap ← parseInt cap
+        let c ← mkCache kind cap
+        let hs ← hs.mapM parseInt
+        some (some (.setCache (some c) hs))
+      | _ => none
+  | _ => none
+
+def errStr : ErrClass → String
+  | .ok => "ok"
+  | .eof => "eof"
+  | .err => "err"
+
+def faultStr : Fault → String
+  | .badHint => "!hint"
+  | .hang => "!hang"
+  | .panic => "!panic"
+
+def logLen (r : Reader AnyCache) : Nat :=
+  match r.cache with
+  | some a => a.log.length
+  | none => 0
+
+def showOut (o : Out) (calls : List String) : String :=
+  s!"{hexOfNats o.bytes}/{errStr o.err}/{o.chunk.1.1},{o.chunk.1.2},{o.chunk.2.1},{o.chunk.2.2}/{";".intercalate calls}"
+
+def runOps (cfg : Cfg) (f : File) : Reader AnyCache → List String → List String → List String
+  | _, [], acc => acc.reverse
+  | r, tok :: rest, acc =>
+    match parseOp tok with
+    | none => ("?" :: acc).reverse
+    | some none =>
+      let s := match r.cache.bind AnyCache.stats with
+        | some t => s!"{t.gets},{t.misses},{t.puts},{t.retains},{t.evictions}"
+        | none => "-"
+      runOps cfg f r rest (s :: acc)
+    | some (some op) =>
+      let before := match op with
+        | .setCache _ _ => 0
+        | _ => logLen r
+      match step cfg anyOps f r op with
+      | .error e => (faultStr e :: acc).reverse
+      | .ok (r', out) =>
+        let calls := match r'.cache with
+          | some a => (a.log.take (a.log.length - before)).reverse
+          | none => []
+        runOps cfg f r' rest (showOut out calls :: acc)
 
 def handle (cmd : String) (args : List String) : Option String :=
   match cmd, args with
+  | "c03.run", cfg :: rest => do
+    let cfg : Cfg ← match cfg with
+      | "00" => some ⟨false, false⟩
+      | "01" => some ⟨false, true⟩
+      | "10" => some ⟨true, false⟩
+      | "11" => some ⟨true, true⟩
+      | _ => none
+    let f ← (rest.takeWhile (· ≠ "|")).mapM parseMember
+    let ops := (rest.dropWhile (· ≠ "|")).drop 1
+    match newReader anyOps cfg f with
+    | .error e => some (faultStr e)
+    | .ok (r, e) =>
+      if e ≠ .none then some (errStr e.cls)
+      else some (" ".intercalate ("ok" :: runOps cfg f r ops []))
   | _, _ => none
 
 end Hts.Drv.C03
